@@ -141,5 +141,9 @@ def run(ctx, ck):
                       'accumulates %s' % norm(s.value)[:80])
                 n_ok += 1
             ck.floor('accumulations in near-field image loop', n_ok, 2)
+    from ._sym import check_ground_symmetry
+    ck.rule('R-SYM.ground-halves', 'statements selecting one half of the ground flags select the other too')
+    nsel, nst = check_ground_symmetry(ctx, ck)
+    ck.floor('statements selecting a half of the ground flags', nst, 3)
     ck.undecided += ['1 % agreement with independently evaluated fields', 'convergence to far field',
                      'E/H = 376.7 ohm, transversality']
